@@ -14,7 +14,7 @@ enum ReqKind { RQ_NEW = 0, RQ_MEMALIGN = 1, RQ_MMAP = 2, RQ_MMAP_HUGE = 3, RQ_KI
 enum OwnerClass { OWN_NONE = 0, OWN_CACHE = 1, OWN_VM_SECURE = 2, OWN_VM_PLAIN = 3, OWN_DATASET = 4, OWN_OTHER = 5 };
 
 // heap policy bits attached to an op
-enum { HP_REUSE_BIG = 1, HP_REUSE_SMALL = 2, HP_STALE = 4 };
+enum { HP_REUSE_BIG = 1, HP_REUSE_SMALL = 2, HP_STALE = 4, HP_REUSE_TINY = 8 };
 static const size_t BIG_BLOCK = 64 * 1024;   // "big" vs "small" object-level blocks for the reuse policy
 static const size_t OBJ_BLOCK = 1024;        // blocks >= this get their own pages (plain variant)
 
@@ -51,7 +51,7 @@ struct SeamStats {
 	uint64_t requests[RQ_KINDS] = {0, 0, 0, 0};
 	uint64_t fired[RQ_KINDS] = {0, 0, 0, 0};
 	uint64_t frees = 0, munmaps = 0, mprotects = 0;
-	uint64_t reuse_big = 0, reuse_small = 0, fresh_big = 0, fresh_small = 0, stale = 0;
+	uint64_t reuse_big = 0, reuse_small = 0, fresh_big = 0, fresh_small = 0, stale = 0, reuse_tiny = 0;
 	uint64_t noise_bytes = 0;
 	uint64_t rw_rx_transitions = 0;   // secure-mode style RW->RX and RX->RW transitions
 	uint64_t rwx_plain = 0;           // RWX requests on non-secure VM buffers (allowed)
@@ -62,6 +62,7 @@ const SeamStats &stats();
 void process_init();                         // once per process: arena, signal handlers
 void run_begin(uint64_t heap_seed);          // per simulated run
 void run_end();
+void set_warmup(bool on);                  // warm-up history: heap requests go to the real allocator (see seams.cpp)
 bool have_arena();
 
 // harness-side protection of a live library block (C08/C14 read-only guards). Page-granular: only pages
